@@ -22,7 +22,7 @@ Paths == UNION { [1..n -> SegAlphabet] : n \in 0..MaxSegs }
 Requests == IF LoopInstance
             THEN [path : Paths, size : {"zero", "ok"}, token : {"notneeded"}, mime : {"nolist"}, deleteOn : {TRUE}, fault : {"none"}]
             ELSE [path : Paths, size : {"zero", "ok", "over"}, token : {"notneeded", "right", "wrong", "missing"},
-             mime : {"nolist", "allowed", "refused"}, deleteOn : BOOLEAN, fault : {"none", "partial", "perm", "dropbox"}]   \* dropbox: the directories can be written and searched but not read (mode 0300): storing works as ever
+             mime : {"nolist", "allowed", "refused", "emptylist"}, deleteOn : BOOLEAN, fault : {"none", "partial", "perm", "dropbox"}]   \* dropbox: the directories can be written and searched but not read (mode 0300): storing works as ever
 VARIABLES slot, req, out
 vars == <<slot, req, out>>
 Exists(n) == n \in Dirs \cup Files \/ (n \in Slots /\ slot[n].k # "absent")
@@ -88,7 +88,7 @@ HasLink(d, names) ==
 Handle ==
   IF ~TokenOK THEN R(FALSE, NoChange)
   ELSE IF req.size = "over" THEN R(FALSE, NoChange)
-  ELSE IF req.mime = "refused" THEN R(FALSE, NoChange)
+  ELSE IF req.mime \in {"refused", "emptylist"} THEN R(FALSE, NoChange)      \* emptylist: a list that allows nothing
   ELSE LET loc == Resolve([at |-> "up", ghost |-> 0], req.path) IN
        IF loc.at # "loop" THEN HandleAt(loc, TRUE)
        ELSE LET lw == LexWalk(loc.d, <<loc.c>>, loc.rest)
@@ -104,7 +104,7 @@ Spec == Init /\ [][Eval]_vars
 Done == out.change.kind # "pending"
 Changed == Done /\ out.change.kind # "none"
 OnlyInside == Changed => InsideUp(out.change.at)
-Authorised == Changed => (TokenOK /\ req.size # "over" /\ req.mime # "refused" /\ (req.size = "zero" => req.deleteOn))
+Authorised == Changed => (TokenOK /\ req.size # "over" /\ req.mime \notin {"refused", "emptylist"} /\ (req.size = "zero" => req.deleteOn))
 NonSuccessLeavesTreeUnchanged == (Done /\ ~out.ok) => out.change.kind = "none"
 SuccessChangesExactlyTarget == (Done /\ out.ok) => out.change.kind \in {"created", "replaced", "deleted"}
 =============================================================================
